@@ -292,8 +292,9 @@ class JSONFile(Resource):
         except FileNotFoundError:
             return None
 
-    def write_raw(self, data, bump=True):
-        """Outside writer: replace the file content; always detectably (mtime bumped)."""
+    def write_raw(self, data, bump=True, style=0):
+        """Outside writer: replace the file content; always detectably (mtime bumped).
+        style=1: another program's serialisation of the SAME value (keys in reverse order, indented)."""
         old = None
         try:
             old = os.stat(self.path)
@@ -304,7 +305,7 @@ class JSONFile(Resource):
                 os.unlink(self.path)
             return
         with open(self.path, "wb") as f:
-            f.write(json.dumps(data).encode())
+            f.write((json.dumps(_reversed_keys(data), indent=1) if style else json.dumps(data)).encode())
         if bump and old is not None:
             st = os.stat(self.path)
             if st.st_mtime_ns <= old.st_mtime_ns:
@@ -323,6 +324,14 @@ class JSONFile(Resource):
             os.unlink(self.path)
         except FileNotFoundError:
             pass
+
+
+def _reversed_keys(x):
+    if isinstance(x, dict):
+        return {k: _reversed_keys(x[k]) for k in reversed(list(x))}
+    if isinstance(x, list):
+        return [_reversed_keys(v) for v in x]
+    return x
 
 
 class RedisKey(Resource):
